@@ -1,26 +1,59 @@
-// probe: queued call when the actor stops
+//! C19 correspondence harness: the real compio-actor (`Cluster`, `Mailbox`, `Call`, `ProcessGroup`,
+//! supervisors, the name registry) driven by text operations (see lean/Drivers/C19.lean).
+//!
+//! Two kinds of cases:
+//!
+//! * **det** cases (`spawn`/`send`/`call`/`stop`/`run`/… lines): one worker thread which the harness
+//!   keeps *frozen* (blocked inside a handler of a helper actor `Z`) while it performs mailbox / registry /
+//!   group operations, and releases until quiescence on a `run` line. Every output line is predicted
+//!   exactly by the Lean model (`World` in lean/Compio/Model/ActorWorld.lean).
+//! * **conc** cases (`conc …` line followed by `hist …` lines): 1..4 workers, several sender threads,
+//!   stops, failures, supervisors reacting, group traffic. The schedule is not controlled; the harness
+//!   records what every entity observed (`hist` lines) and both the monitors here and the Lean trace
+//!   acceptor (lean/Compio/Model/History.lean) judge the history.
+//!
+//! Property monitors (implementation-only oracles) live in `monitors_det` and `judge_hist`.
+
 use std::{
+    collections::{BTreeMap, BTreeSet, HashMap},
     future::Future,
     num::NonZeroUsize,
-    pin::pin,
-    sync::{Arc, mpsc},
+    pin::{Pin, pin},
+    sync::{
+        Arc, Mutex,
+        atomic::{AtomicU64, Ordering},
+        mpsc,
+    },
     task::{Context, Poll, Wake, Waker},
     thread,
     time::{Duration, Instant},
 };
 
-use compio_actor::{Actor, ActorExit, Call, Cluster, Handler, Mailbox, mailbox::CallError};
+use compio_actor::{
+    Actor, ActorExit, ActorHandle, Call, Cluster, Handler, Mailbox,
+    cluster::{SpawnError, SpawnFuture},
+    mailbox::{CallError, DeliverError},
+    process_group::{Membership, ProcessGroup},
+    supervisor::SupervisionEvent,
+};
 use compio_dispatcher::Dispatcher;
+use futures_channel::oneshot;
+use hx_common::*;
 
-struct Th(thread::Thread);
-impl Wake for Th {
+// ---------------------------------------------------------------------------------------------
+// small executor pieces
+
+struct ThreadWaker(thread::Thread);
+impl Wake for ThreadWaker {
     fn wake(self: Arc<Self>) {
         self.0.unpark()
     }
 }
+
+/// drive a future on the current thread for at most `d`
 fn block_on_timeout<F: Future>(f: F, d: Duration) -> Option<F::Output> {
     let mut f = pin!(f);
-    let w = Waker::from(Arc::new(Th(thread::current())));
+    let w = Waker::from(Arc::new(ThreadWaker(thread::current())));
     let mut cx = Context::from_waker(&w);
     let end = Instant::now() + d;
     loop {
@@ -35,59 +68,1211 @@ fn block_on_timeout<F: Future>(f: F, d: Duration) -> Option<F::Output> {
     }
 }
 
-struct Gate;
-#[derive(Debug)]
-struct Block;
-#[derive(Debug, PartialEq)]
-struct Q;
-impl Actor for Gate {
-    type Arguments = (mpsc::Sender<()>, mpsc::Receiver<()>);
-    type Error = ();
-    type State = Self::Arguments;
+fn poll_once<F: Future + ?Sized>(f: Pin<&mut F>) -> Poll<F::Output> {
+    let w = futures_util::task::noop_waker();
+    let mut cx = Context::from_waker(&w);
+    f.poll(&mut cx)
+}
 
-    async fn pre_start(&self, _m: &Mailbox<Self>, a: Self::Arguments) -> Result<Self::State, ()> {
-        Ok(a)
+// ---------------------------------------------------------------------------------------------
+// observation log shared by all actors of one case
+
+#[derive(Clone, Copy, Debug, PartialEq, Eq)]
+enum Obs {
+    Hook(u8, bool), // 0 pre_start 1 post_start 2 pre_stop 3 post_stop
+    Hs(u32),
+    He(u32, bool),
+    Sup(u8, u32), // supervisor saw event kind (0 started 1 terminated 2 failed) of child key
+}
+
+impl Obs {
+    fn show(&self) -> String {
+        match *self {
+            Obs::Hook(h, ok) => format!("{}{}", ["ps", "po", "pr", "pt"][h as usize], if ok { '+' } else { '-' }),
+            Obs::Hs(m) => format!("h{m}"),
+            Obs::He(m, ok) => format!("e{m}{}", if ok { '+' } else { '-' }),
+            Obs::Sup(k, c) => format!("S{c}.{k}"),
+        }
     }
 }
-impl Handler<Block> for Gate {
-    async fn handle(&self, _m: &Mailbox<Self>, _: Block, st: &mut Self::State) -> Result<(), ()> {
-        st.0.send(()).unwrap();
-        st.1.recv().unwrap();
+
+#[derive(Default)]
+struct Log {
+    /// (actor, observation, global sequence number)
+    events: Mutex<Vec<(u32, Obs, u64)>>,
+    counter: AtomicU64,
+}
+
+impl Log {
+    fn push(&self, actor: u32, o: Obs) {
+        let mut ev = self.events.lock().unwrap();
+        let seq = self.counter.fetch_add(1, Ordering::SeqCst);
+        ev.push((actor, o, seq));
+    }
+
+    fn of(&self, actor: u32) -> Vec<Obs> {
+        self.events.lock().unwrap().iter().filter(|e| e.0 == actor).map(|e| e.1).collect()
+    }
+
+    fn of_seq(&self, actor: u32) -> Vec<(Obs, u64)> {
+        self.events.lock().unwrap().iter().filter(|e| e.0 == actor).map(|e| (e.1, e.2)).collect()
+    }
+
+    fn count(&self) -> u64 {
+        self.counter.load(Ordering::SeqCst)
+    }
+}
+
+// ---------------------------------------------------------------------------------------------
+// the actors
+
+#[derive(Debug)]
+struct Msg {
+    id: u32,
+    kind: u8, // n f s x
+}
+
+#[derive(Debug)]
+struct Ask {
+    id: u32,
+    kind: u8, // r i q d
+}
+
+struct TestActor {
+    id: u32,
+    hooks: [bool; 4],
+    log: Arc<Log>,
+    /// conc cases: what a handler does besides logging
+    extra: Option<Arc<ConcShared>>,
+}
+
+impl Actor for TestActor {
+    type Arguments = ();
+    type Error = u32;
+    type State = u32; // number of messages handled
+
+    async fn pre_start(&self, _m: &Mailbox<Self>, (): ()) -> Result<u32, u32> {
+        self.log.push(self.id, Obs::Hook(0, self.hooks[0]));
+        if self.hooks[0] { Ok(0) } else { Err(1) }
+    }
+
+    async fn post_start(&self, _m: &Mailbox<Self>, _s: &mut u32) -> Result<(), u32> {
+        self.log.push(self.id, Obs::Hook(1, self.hooks[1]));
+        if self.hooks[1] { Ok(()) } else { Err(2) }
+    }
+
+    async fn pre_stop(&self, _m: &Mailbox<Self>, _s: &mut u32) -> Result<(), u32> {
+        self.log.push(self.id, Obs::Hook(2, self.hooks[2]));
+        if self.hooks[2] { Ok(()) } else { Err(3) }
+    }
+
+    async fn post_stop(&self, _m: &Mailbox<Self>, _s: &mut u32) -> Result<(), u32> {
+        self.log.push(self.id, Obs::Hook(3, self.hooks[3]));
+        if self.hooks[3] { Ok(()) } else { Err(4) }
+    }
+}
+
+/// yield to the executor once
+struct YieldNow(bool);
+impl Future for YieldNow {
+    type Output = ();
+
+    fn poll(mut self: Pin<&mut Self>, cx: &mut Context<'_>) -> Poll<()> {
+        if self.0 {
+            Poll::Ready(())
+        } else {
+            self.0 = true;
+            cx.waker().wake_by_ref();
+            Poll::Pending
+        }
+    }
+}
+
+impl Handler<Msg> for TestActor {
+    async fn handle(&self, myself: &Mailbox<Self>, m: Msg, st: &mut u32) -> Result<(), u32> {
+        *st += 1;
+        self.log.push(self.id, Obs::Hs(m.id));
+        if let Some(x) = &self.extra {
+            x.in_handler(self.id, m.id).await;
+        }
+        if m.kind == b's' || m.kind == b'x' {
+            myself.stop();
+        }
+        let ok = m.kind == b'n' || m.kind == b's';
+        self.log.push(self.id, Obs::He(m.id, ok));
+        if ok { Ok(()) } else { Err(100 + m.id) }
+    }
+}
+
+impl Handler<Call<Ask, u32>> for TestActor {
+    async fn handle(&self, _myself: &Mailbox<Self>, c: Call<Ask, u32>, st: &mut u32) -> Result<(), u32> {
+        *st += 1;
+        let (id, kind) = (c.message().id, c.message().kind);
+        self.log.push(self.id, Obs::Hs(id));
+        if let Some(x) = &self.extra {
+            x.in_handler(self.id, id).await;
+        }
+        if kind == b'r' || kind == b'q' {
+            c.reply(*st).ok();
+        } else {
+            drop(c);
+        }
+        let ok = kind == b'r' || kind == b'i';
+        self.log.push(self.id, Obs::He(id, ok));
+        if ok { Ok(()) } else { Err(100 + id) }
+    }
+}
+
+/// supervisor: records the events it handles; children are told apart by (name, capacity)
+struct Sup {
+    id: u32,
+    log: Arc<Log>,
+    children: Arc<Mutex<Vec<((Option<String>, usize), u32)>>>,
+    /// conc cases: stop a child as soon as it reports `started`
+    stop_on_start: bool,
+}
+
+impl Actor for Sup {
+    type Arguments = ();
+    type Error = u32;
+    type State = ();
+
+    async fn pre_start(&self, _m: &Mailbox<Self>, (): ()) -> Result<(), u32> {
         Ok(())
     }
 }
-impl Handler<Call<Q, u32>> for Gate {
-    async fn handle(&self, _m: &Mailbox<Self>, c: Call<Q, u32>, _st: &mut Self::State) -> Result<(), ()> {
-        c.reply(7).ok();
+
+impl Handler<SupervisionEvent<TestActor>> for Sup {
+    async fn handle(&self, _m: &Mailbox<Self>, ev: SupervisionEvent<TestActor>, _s: &mut ()) -> Result<(), u32> {
+        let k = match &ev {
+            SupervisionEvent::ActorStarted(_) => 0,
+            SupervisionEvent::ActorTerminated(_) => 1,
+            SupervisionEvent::ActorFailed(_) => 2,
+        };
+        let mb = ev.actor();
+        let key = (mb.name().map(str::to_string), mb.capacity().get());
+        let child = self.children.lock().unwrap().iter().find(|c| c.0 == key).map(|c| c.1).unwrap_or(u32::MAX);
+        self.log.push(self.id, Obs::Sup(k, child));
+        if self.stop_on_start && k == 0 {
+            mb.stop();
+        }
         Ok(())
     }
+}
+
+/// the freezer: its handler blocks the (single) worker thread until released
+struct Freezer {
+    log: Arc<Log>,
+}
+
+enum Ctl {
+    Ping(oneshot::Sender<()>),
+    Entered,
+}
+
+struct Gate {
+    ctl: mpsc::Sender<Ctl>,
+    release: mpsc::Receiver<()>,
+}
+
+impl std::fmt::Debug for Gate {
+    fn fmt(&self, f: &mut std::fmt::Formatter<'_>) -> std::fmt::Result {
+        f.write_str("Gate")
+    }
+}
+
+impl Actor for Freezer {
+    type Arguments = ();
+    type Error = u32;
+    type State = ();
+
+    async fn pre_start(&self, _m: &Mailbox<Self>, (): ()) -> Result<(), u32> {
+        Ok(())
+    }
+}
+
+impl Handler<Gate> for Freezer {
+    async fn handle(&self, _m: &Mailbox<Self>, g: Gate, _s: &mut ()) -> Result<(), u32> {
+        // Let every other task of this worker run until nothing moves any more. Each round is a
+        // round trip through the harness thread, so it spans a whole executor tick (remote wakes are
+        // drained, the dispatcher loop is polled); the world is quiescent when the observation counter
+        // did not move for several consecutive rounds.
+        let mut last = self.log.count();
+        let mut stable = 0;
+        while stable < 4 {
+            let (tx, rx) = oneshot::channel();
+            if g.ctl.send(Ctl::Ping(tx)).is_err() {
+                break;
+            }
+            rx.await.ok();
+            YieldNow(false).await;
+            let c = self.log.count();
+            if c == last {
+                stable += 1;
+            } else {
+                stable = 0;
+                last = c;
+            }
+        }
+        g.ctl.send(Ctl::Entered).ok();
+        g.release.recv().ok();
+        Ok(())
+    }
+}
+
+fn make_cluster(workers: usize) -> Cluster {
+    let d = Dispatcher::builder()
+        .worker_threads(NonZeroUsize::new(workers).unwrap())
+        .build()
+        .expect("dispatcher");
+    Cluster::from_dispatcher(d)
+}
+
+const LONG: Duration = Duration::from_secs(10);
+
+// ---------------------------------------------------------------------------------------------
+// det cases: the frozen world
+
+type CallFut = Pin<Box<dyn Future<Output = Result<u32, CallError<Ask>>>>>;
+
+enum Slot {
+    Test {
+        fut: Option<SpawnFuture<TestActor>>,
+        mailbox: Option<Mailbox<TestActor>>,
+        handle: Option<ActorHandle<u32>>,
+    },
+    Sup {
+        fut: Option<SpawnFuture<Sup>>,
+        mailbox: Option<Mailbox<Sup>>,
+        handle: Option<ActorHandle<u32>>,
+        children: Arc<Mutex<Vec<((Option<String>, usize), u32)>>>,
+    },
+}
+
+struct ActorSlot {
+    slot: Slot,
+    exit: Option<String>,
+    reported: usize,
+    name: Option<String>,
+    hooks: [bool; 4],
+    started: bool,
+}
+
+enum GroupSlot {
+    Msgs(ProcessGroup<Msg>, BTreeMap<u64, Membership<Msg>>, u64),
+    Calls(ProcessGroup<Call<Ask, u32>>, BTreeMap<u64, Membership<Call<Ask, u32>>>, u64),
+}
+
+struct CallSlot {
+    fut: Option<CallFut>,
+    result: Option<String>,
+    /// actor the call was addressed to (direct calls only)
+    target: Option<u32>,
+}
+
+struct Det {
+    cluster: Option<Cluster>,
+    log: Arc<Log>,
+    z: Mailbox<Freezer>,
+    release: Option<mpsc::Sender<()>>,
+    actors: BTreeMap<u32, ActorSlot>,
+    groups: BTreeMap<u32, GroupSlot>,
+    calls: BTreeMap<u32, CallSlot>,
+    /// harness-side bookkeeping for the monitors: (id, direct target, accepted?) in program order
+    sends: Vec<(u32, Option<u32>, bool)>,
+    /// names seen by `lookup` lines: (name, found, seq at the time)
+    stops_requested: BTreeSet<u32>,
+    quiesce_failed: bool,
+}
+
+fn show_call(r: &Result<u32, CallError<Ask>>) -> String {
+    match r {
+        Ok(v) => format!("reply {v}"),
+        Err(CallError::NoReply) => "noreply".into(),
+        Err(CallError::Full(_)) => "full".into(),
+        Err(CallError::Closed(_)) => "closed".into(),
+    }
+}
+
+impl Det {
+    fn new() -> Det {
+        let cluster = make_cluster(1);
+        let log = Arc::new(Log::default());
+        let zl = log.clone();
+        let (z, _zh) = block_on_timeout(cluster.spawn(move || Freezer { log: zl }, ()).into_future(), LONG)
+            .expect("freezer start")
+            .ok()
+            .expect("freezer spawn");
+        let mut d = Det {
+            cluster: Some(cluster),
+            log,
+            z,
+            release: None,
+            actors: BTreeMap::new(),
+            groups: BTreeMap::new(),
+            calls: BTreeMap::new(),
+            sends: vec![],
+            stops_requested: BTreeSet::new(),
+            quiesce_failed: false,
+        };
+        d.freeze();
+        d
+    }
+
+    /// queue a new gate behind everything `Z` has, release the current one, wait until the new one is entered
+    fn freeze(&mut self) {
+        let (ctx, crx) = mpsc::channel();
+        let (rtx, rrx) = mpsc::channel();
+        self.z.send(Gate { ctl: ctx, release: rrx }).expect("gate accepted");
+        if let Some(r) = self.release.take() {
+            r.send(()).ok();
+        }
+        let end = Instant::now() + LONG;
+        loop {
+            match crx.recv_timeout(end.saturating_duration_since(Instant::now())) {
+                Ok(Ctl::Ping(tx)) => {
+                    tx.send(()).ok();
+                }
+                Ok(Ctl::Entered) => break,
+                Err(_) => {
+                    self.quiesce_failed = true;
+                    break;
+                }
+            }
+        }
+        self.release = Some(rtx);
+    }
+
+    fn delta(&mut self) -> String {
+        let mut parts = vec![];
+        for (id, a) in self.actors.iter_mut() {
+            let l = self.log.of(*id);
+            let d = &l[a.reported.min(l.len())..];
+            a.reported = l.len();
+            if d.is_empty() {
+                continue;
+            }
+            if matches!(a.slot, Slot::Sup { .. }) {
+                let mut evs: Vec<(u32, u8)> =
+                    d.iter().filter_map(|o| if let Obs::Sup(k, c) = o { Some((*c, *k)) } else { None }).collect();
+                evs.sort_by_key(|e| e.0); // stable: per child in handling order
+                if evs.is_empty() {
+                    continue;
+                }
+                let s: Vec<String> = evs.iter().map(|(c, k)| format!("S{c}.{k}")).collect();
+                parts.push(format!("a{id}:{}", s.join(",")));
+            } else {
+                let s: Vec<String> = d.iter().map(Obs::show).collect();
+                parts.push(format!("a{id}:{}", s.join(",")));
+            }
+        }
+        if parts.is_empty() { "-".into() } else { parts.join(" ") }
+    }
+
+    fn test_mailbox(&self, a: u32) -> Option<Mailbox<TestActor>> {
+        match self.actors.get(&a).map(|s| &s.slot) {
+            Some(Slot::Test { mailbox: Some(m), .. }) => Some(m.clone()),
+            _ => None,
+        }
+    }
+
+    fn op(&mut self, w: &[&str]) -> String {
+        let num = |s: &str| s.parse::<u32>().ok();
+        match w {
+            ["spawn", a, name, cap, sup, hooks] => {
+                let (Some(a), Some(cap)) = (num(a), cap.parse::<usize>().ok().and_then(NonZeroUsize::new)) else {
+                    return "bad-op".into();
+                };
+                if self.actors.contains_key(&a) {
+                    return "dup".into();
+                }
+                let hb: Vec<bool> = hooks.bytes().map(|b| b == b'+').collect();
+                if hb.len() != 4 {
+                    return "bad-op".into();
+                }
+                let hooks = [hb[0], hb[1], hb[2], hb[3]];
+                let log = self.log.clone();
+                let cluster = self.cluster.as_ref().unwrap();
+                let mut sp = cluster
+                    .spawn(move || TestActor { id: a, hooks, log, extra: None }, ())
+                    .with_capacity(cap);
+                let name = if *name == "-" { None } else { Some(name.to_string()) };
+                if let Some(n) = &name {
+                    sp = sp.with_name(n.clone());
+                }
+                if let Some(s) = num(sup) {
+                    if let Some(ActorSlot { slot: Slot::Sup { mailbox: Some(m), children, .. }, .. }) = self.actors.get(&s) {
+                        children.lock().unwrap().push(((name.clone(), cap.get()), a));
+                        sp = sp.with_supervisor(m);
+                    }
+                }
+                let mut fut = sp.into_future();
+                match poll_once(Pin::new(&mut fut)) {
+                    Poll::Ready(Err(SpawnError::NameTaken(_))) => "nametaken".into(),
+                    Poll::Ready(Err(SpawnError::Unavailable)) => "unavailable".into(),
+                    Poll::Ready(_) => "early".into(),
+                    Poll::Pending => {
+                        self.actors.insert(a, ActorSlot {
+                            slot: Slot::Test { fut: Some(fut), mailbox: None, handle: None },
+                            exit: None,
+                            reported: 0,
+                            name,
+                            hooks,
+                            started: false,
+                        });
+                        "pending".into()
+                    }
+                }
+            }
+            ["spawnsup", a, name, cap] => {
+                let (Some(a), Some(cap)) = (num(a), cap.parse::<usize>().ok().and_then(NonZeroUsize::new)) else {
+                    return "bad-op".into();
+                };
+                if self.actors.contains_key(&a) {
+                    return "dup".into();
+                }
+                let log = self.log.clone();
+                let children = Arc::new(Mutex::new(vec![]));
+                let ch = children.clone();
+                let cluster = self.cluster.as_ref().unwrap();
+                let mut sp = cluster
+                    .spawn(move || Sup { id: a, log, children: ch, stop_on_start: false }, ())
+                    .with_capacity(cap);
+                let name = if *name == "-" { None } else { Some(name.to_string()) };
+                if let Some(n) = &name {
+                    sp = sp.with_name(n.clone());
+                }
+                let mut fut = sp.into_future();
+                match poll_once(Pin::new(&mut fut)) {
+                    Poll::Ready(Err(SpawnError::NameTaken(_))) => "nametaken".into(),
+                    Poll::Ready(Err(SpawnError::Unavailable)) => "unavailable".into(),
+                    Poll::Ready(_) => "early".into(),
+                    Poll::Pending => {
+                        self.actors.insert(a, ActorSlot {
+                            slot: Slot::Sup { fut: Some(fut), mailbox: None, handle: None, children },
+                            exit: None,
+                            reported: 0,
+                            name,
+                            hooks: [true; 4],
+                            started: false,
+                        });
+                        "pending".into()
+                    }
+                }
+            }
+            ["await", a] => {
+                let Some(s) = num(a).and_then(|a| self.actors.get_mut(&a)) else { return "nofuture".into() };
+                macro_rules! aw {
+                    ($fut:ident, $mailbox:ident, $handle:ident) => {{
+                        let Some(f) = $fut.as_mut() else { return "nofuture".into() };
+                        match poll_once(Pin::new(f)) {
+                            Poll::Pending => "pending".into(),
+                            Poll::Ready(r) => {
+                                *$fut = None;
+                                match r {
+                                    Ok((m, h)) => {
+                                        *$mailbox = Some(m);
+                                        *$handle = Some(h);
+                                        s.started = true;
+                                        "started".into()
+                                    }
+                                    Err(SpawnError::Start(_)) => "startfail".into(),
+                                    Err(SpawnError::WorkerStopped) => "workerstopped".into(),
+                                    Err(_) => "spawnerr".into(),
+                                }
+                            }
+                        }
+                    }};
+                }
+                match &mut s.slot {
+                    Slot::Test { fut, mailbox, handle } => aw!(fut, mailbox, handle),
+                    Slot::Sup { fut, mailbox, handle, .. } => aw!(fut, mailbox, handle),
+                }
+            }
+            ["dropfut", a] => {
+                let Some(s) = num(a).and_then(|a| self.actors.get_mut(&a)) else { return "nofuture".into() };
+                let had = match &mut s.slot {
+                    Slot::Test { fut, .. } => fut.take().is_some(),
+                    Slot::Sup { fut, .. } => fut.take().is_some(),
+                };
+                if had { "ok".into() } else { "nofuture".into() }
+            }
+            ["send", a, id, k] => {
+                let (Some(a), Some(id)) = (num(a), num(id)) else { return "bad-op".into() };
+                let Some(m) = self.test_mailbox(a) else { return "nomailbox".into() };
+                let r = m.send(Msg { id, kind: k.as_bytes()[0] });
+                self.sends.push((id, Some(a), r.is_ok()));
+                match r {
+                    Ok(()) => "ok".into(),
+                    Err(DeliverError::Full(_)) => "full".into(),
+                    Err(DeliverError::Closed(_)) => "closed".into(),
+                }
+            }
+            ["call", a, id, k] => {
+                let (Some(a), Some(id)) = (num(a), num(id)) else { return "bad-op".into() };
+                let Some(m) = self.test_mailbox(a) else { return "nomailbox".into() };
+                let kind = k.as_bytes()[0];
+                let mut fut: CallFut = Box::pin(async move { m.call::<Ask, u32>(Ask { id, kind }).await });
+                self.first_poll(id, Some(a), &mut fut).map(|r| (self.calls.insert(id, CallSlot { fut: None, result: Some(r.clone()), target: Some(a) }), r).1).unwrap_or_else(|| {
+                    self.calls.insert(id, CallSlot { fut: Some(fut), result: None, target: Some(a) });
+                    "sent".into()
+                })
+            }
+            ["poll", id] => {
+                let Some(c) = num(id).and_then(|i| self.calls.get_mut(&i)) else { return "nocall".into() };
+                if let Some(r) = &c.result {
+                    return r.clone();
+                }
+                match poll_once(c.fut.as_mut().unwrap().as_mut()) {
+                    Poll::Pending => "pending".into(),
+                    Poll::Ready(r) => {
+                        let s = show_call(&r);
+                        c.fut = None;
+                        c.result = Some(s.clone());
+                        s
+                    }
+                }
+            }
+            ["stop", a] => {
+                let Some(a) = num(a) else { return "bad-op".into() };
+                let r = match self.actors.get(&a).map(|s| &s.slot) {
+                    Some(Slot::Test { mailbox: Some(m), .. }) => m.stop(),
+                    Some(Slot::Sup { mailbox: Some(m), .. }) => m.stop(),
+                    _ => return "nomailbox".into(),
+                };
+                self.stops_requested.insert(a);
+                r.to_string()
+            }
+            ["isclosed", a] => match num(a).and_then(|a| self.actors.get(&a)).map(|s| &s.slot) {
+                Some(Slot::Test { mailbox: Some(m), .. }) => m.is_closed().to_string(),
+                Some(Slot::Sup { mailbox: Some(m), .. }) => m.is_closed().to_string(),
+                _ => "nomailbox".into(),
+            },
+            ["lookup", n] => match self.cluster.as_ref().unwrap().lookup::<TestActor, _>(n.to_string()) {
+                None => "none".into(),
+                Some(m) => format!("some cap={} closed={}", m.capacity(), m.is_closed()),
+            },
+            ["exit", a] => {
+                let Some(s) = num(a).and_then(|a| self.actors.get_mut(&a)) else { return "nomailbox".into() };
+                if let Some(e) = &s.exit {
+                    return e.clone();
+                }
+                let h = match &mut s.slot {
+                    Slot::Test { handle, .. } => handle,
+                    Slot::Sup { handle, .. } => handle,
+                };
+                let Some(hd) = h.as_mut() else { return "nomailbox".into() };
+                match poll_once(Pin::new(hd)) {
+                    Poll::Pending => "pending".into(),
+                    Poll::Ready(r) => {
+                        *h = None;
+                        let e = match r {
+                            Ok(ActorExit::Stopped) => "stopped".to_string(),
+                            Ok(ActorExit::Failed(c)) => format!("failed {c}"),
+                            Err(_) => "lost".to_string(),
+                        };
+                        s.exit = Some(e.clone());
+                        e
+                    }
+                }
+            }
+            ["run"] => {
+                self.freeze();
+                self.delta()
+            }
+            ["gnew", g, t] => {
+                let Some(g) = num(g) else { return "bad-op".into() };
+                if self.groups.contains_key(&g) {
+                    return "dup".into();
+                }
+                match *t {
+                    "m" => self.groups.insert(g, GroupSlot::Msgs(ProcessGroup::new(), BTreeMap::new(), 0)),
+                    "c" => self.groups.insert(g, GroupSlot::Calls(ProcessGroup::new(), BTreeMap::new(), 0)),
+                    _ => return "bad-op".into(),
+                };
+                "ok".into()
+            }
+            ["gjoin", g, a] => {
+                let (Some(g), Some(a)) = (num(g), num(a)) else { return "bad-op".into() };
+                let mb = self.test_mailbox(a);
+                match (self.groups.get_mut(&g), mb) {
+                    (Some(GroupSlot::Msgs(pg, ms, next)), Some(m)) => {
+                        let id = *next;
+                        *next += 1;
+                        ms.insert(id, pg.join(m.broker::<Msg>()));
+                        format!("m{id}")
+                    }
+                    (Some(GroupSlot::Calls(pg, ms, next)), Some(m)) => {
+                        let id = *next;
+                        *next += 1;
+                        ms.insert(id, pg.join(m.broker::<Call<Ask, u32>>()));
+                        format!("m{id}")
+                    }
+                    _ => "nomailbox".into(),
+                }
+            }
+            ["gleave", g, m] => {
+                let (Some(g), Some(m)) = (num(g), m.parse::<u64>().ok()) else { return "bad-op".into() };
+                match self.groups.get_mut(&g) {
+                    Some(GroupSlot::Msgs(_, ms, _)) => {
+                        if let Some(x) = ms.remove(&m) {
+                            x.leave();
+                        }
+                        "ok".into()
+                    }
+                    Some(GroupSlot::Calls(_, ms, _)) => {
+                        if let Some(x) = ms.remove(&m) {
+                            x.leave();
+                        }
+                        "ok".into()
+                    }
+                    None => "nogroup".into(),
+                }
+            }
+            ["glen", g] => match num(g).and_then(|g| self.groups.get(&g)) {
+                Some(GroupSlot::Msgs(pg, ..)) => pg.len().to_string(),
+                Some(GroupSlot::Calls(pg, ..)) => pg.len().to_string(),
+                None => "nogroup".into(),
+            },
+            ["gsend", g, id, k] => {
+                let (Some(g), Some(id)) = (num(g), num(id)) else { return "bad-op".into() };
+                match self.groups.get(&g) {
+                    Some(GroupSlot::Msgs(pg, ..)) => {
+                        let r = catch(|| pg.send(Msg { id, kind: k.as_bytes()[0] }));
+                        match r {
+                            Err(_) => "panic".into(),
+                            Ok(r) => {
+                                self.sends.push((id, None, r.is_ok()));
+                                match r {
+                                    Ok(()) => "ok".into(),
+                                    Err(DeliverError::Full(_)) => "full".into(),
+                                    Err(DeliverError::Closed(_)) => "closed".into(),
+                                }
+                            }
+                        }
+                    }
+                    Some(_) => "bad-op".into(),
+                    None => "nogroup".into(),
+                }
+            }
+            ["gcall", g, id, k] => {
+                let (Some(g), Some(id)) = (num(g), num(id)) else { return "bad-op".into() };
+                match self.groups.get(&g) {
+                    Some(GroupSlot::Calls(pg, ..)) => {
+                        let pg = pg.clone();
+                        let kind = k.as_bytes()[0];
+                        let mut fut: CallFut = Box::pin(async move { pg.call(Ask { id, kind }).await });
+                        match self.first_poll(id, None, &mut fut) {
+                            Some(r) => {
+                                self.calls.insert(id, CallSlot { fut: None, result: Some(r.clone()), target: None });
+                                r
+                            }
+                            None => {
+                                self.calls.insert(id, CallSlot { fut: Some(fut), result: None, target: None });
+                                "sent".into()
+                            }
+                        }
+                    }
+                    Some(_) => "bad-op".into(),
+                    None => "nogroup".into(),
+                }
+            }
+            _ => "bad-op".into(),
+        }
+    }
+
+    /// first poll of a call future performs the send; `Some(result)` when it was rejected at once
+    fn first_poll(&mut self, id: u32, target: Option<u32>, fut: &mut CallFut) -> Option<String> {
+        match catch(|| poll_once(fut.as_mut())) {
+            Err(_) => Some("panic".into()),
+            Ok(Poll::Pending) => {
+                self.sends.push((id, target, true));
+                None
+            }
+            Ok(Poll::Ready(r)) => {
+                self.sends.push((id, target, false));
+                Some(show_call(&r))
+            }
+        }
+    }
+}
+
+/// automaton of the documented lifecycle (same table as `lifeStep` in Model/Actor.lean, written independently)
+#[derive(Clone, Copy, PartialEq, Eq, Debug)]
+enum Life {
+    Fresh,
+    DeadStart,
+    Started,
+    Running,
+    In(u32),
+    Closing,
+    Stopped1,
+    Done,
+}
+
+fn life_run(log: &[Obs]) -> Option<Life> {
+    let mut l = Life::Fresh;
+    for o in log {
+        l = match (l, *o) {
+            (Life::Fresh, Obs::Hook(0, true)) => Life::Started,
+            (Life::Fresh, Obs::Hook(0, false)) => Life::DeadStart,
+            (Life::Started, Obs::Hook(1, true)) => Life::Running,
+            (Life::Started, Obs::Hook(1, false)) => Life::Closing,
+            (Life::Started, Obs::Hook(2, _)) => Life::Stopped1,
+            (Life::Running, Obs::Hs(m)) => Life::In(m),
+            (Life::Running, Obs::Hook(2, _)) => Life::Stopped1,
+            (Life::In(m), Obs::He(m2, ok)) if m == m2 => {
+                if ok {
+                    Life::Running
+                } else {
+                    Life::Closing
+                }
+            }
+            (Life::Closing, Obs::Hook(2, _)) => Life::Stopped1,
+            (Life::Stopped1, Obs::Hook(3, _)) => Life::Done,
+            _ => return None,
+        };
+    }
+    Some(l)
+}
+
+fn handled_of(log: &[Obs]) -> Vec<u32> {
+    log.iter().filter_map(|o| if let Obs::Hs(m) = o { Some(*m) } else { None }).collect()
+}
+
+/// teardown of a det case + the implementation-only property monitors
+fn finish_det(d: &mut Det, ex: &mut Exec) {
+    if d.quiesce_failed {
+        ex.fail("C19:harness-quiesce", "worker did not become quiescent within 10 s");
+    }
+    // 1. let everything accepted so far be handled
+    d.freeze();
+    let alive_before: Vec<u32> = d
+        .actors
+        .iter()
+        .filter(|(_, s)| match &s.slot {
+            Slot::Test { mailbox: Some(m), .. } => !m.is_closed(),
+            _ => false,
+        })
+        .map(|(a, _)| *a)
+        .collect();
+    // completeness: an actor that is still open was never stopped and never failed:
+    // every message it accepted directly must have been handled by now
+    for a in &alive_before {
+        let handled = handled_of(&d.log.of(*a));
+        let accepted: Vec<u32> = d.sends.iter().filter(|s| s.1 == Some(*a) && s.2).map(|s| s.0).collect();
+        if handled.iter().filter(|m| accepted.contains(m)).count() != accepted.len() {
+            ex.fail("C19:accepted-not-handled", format!("actor {a} open and idle, accepted {accepted:?}, handled {handled:?}"));
+        }
+    }
+    // 2. resolve the spawn futures still pending, stop everything we can reach
+    let ids: Vec<u32> = d.actors.keys().copied().collect();
+    for a in &ids {
+        let s = d.actors.get_mut(a).unwrap();
+        match &mut s.slot {
+            Slot::Test { fut, mailbox, handle } => {
+                if let Some(f) = fut.as_mut() {
+                    if let Poll::Ready(r) = poll_once(Pin::new(f)) {
+                        *fut = None;
+                        if let Ok((m, h)) = r {
+                            *mailbox = Some(m);
+                            *handle = Some(h);
+                            s.started = true;
+                        }
+                    }
+                }
+                if let Some(m) = mailbox {
+                    m.stop();
+                }
+            }
+            Slot::Sup { .. } => {}
+        }
+    }
+    d.freeze();
+    for a in &ids {
+        let s = d.actors.get_mut(a).unwrap();
+        if let Slot::Sup { fut, mailbox, handle, .. } = &mut s.slot {
+            if let Some(f) = fut.as_mut() {
+                if let Poll::Ready(r) = poll_once(Pin::new(f)) {
+                    *fut = None;
+                    if let Ok((m, h)) = r {
+                        *mailbox = Some(m);
+                        *handle = Some(h);
+                        s.started = true;
+                    }
+                }
+            }
+            if let Some(m) = mailbox {
+                m.stop();
+            }
+        }
+    }
+    d.freeze();
+    // 3. exits
+    let mut exited: BTreeSet<u32> = BTreeSet::new();
+    for a in &ids {
+        let s = d.actors.get_mut(a).unwrap();
+        if s.exit.is_some() {
+            exited.insert(*a);
+            continue;
+        }
+        let h = match &mut s.slot {
+            Slot::Test { handle, .. } => handle,
+            Slot::Sup { handle, .. } => handle,
+        };
+        if let Some(hd) = h.as_mut() {
+            match poll_once(Pin::new(hd)) {
+                Poll::Ready(_) => {
+                    exited.insert(*a);
+                }
+                Poll::Pending => {
+                    ex.fail("C19:actor-did-not-exit", format!("actor {a} stopped but its handle is pending, log {:?}", d.log.of(*a)));
+                }
+            }
+        }
+    }
+    // 4. per-actor logs: lifecycle order, serial handlers, FIFO, at most once
+    let mut seen_global: HashMap<u32, u32> = HashMap::new();
+    for a in &ids {
+        let s = &d.actors[a];
+        if matches!(s.slot, Slot::Sup { .. }) {
+            continue;
+        }
+        let log = d.log.of(*a);
+        match life_run(&log) {
+            None => ex.fail("C19:lifecycle-order", format!("actor {a}: {}", log.iter().map(Obs::show).collect::<Vec<_>>().join(","))),
+            Some(l) => {
+                if exited.contains(a) && l != Life::Done {
+                    ex.fail("C19:lifecycle-incomplete", format!("actor {a} exited in {l:?}: {}", log.iter().map(Obs::show).collect::<Vec<_>>().join(",")));
+                }
+                if !s.hooks[0] && l != Life::DeadStart && l != Life::Fresh {
+                    ex.fail("C19:lifecycle-order", format!("actor {a} failed pre_start but went on: {l:?}"));
+                }
+            }
+        }
+        let handled = handled_of(&log);
+        for m in &handled {
+            if let Some(other) = seen_global.insert(*m, *a) {
+                ex.fail("C19:handled-twice", format!("message {m} handled by actor {other} and actor {a}"));
+            }
+            match d.sends.iter().find(|x| x.0 == *m) {
+                None => ex.fail("C19:handled-unsent", format!("actor {a} handled {m} which was never sent")),
+                Some((_, _, false)) => ex.fail("C19:handled-rejected", format!("actor {a} handled {m} whose send was rejected")),
+                Some((_, Some(t), true)) if t != a => ex.fail("C19:misdelivered", format!("message {m} sent to actor {t} handled by actor {a}")),
+                _ => {}
+            }
+        }
+        // FIFO: handled order follows the (single-threaded) acceptance order; direct sends form a prefix
+        let order: Vec<usize> = handled.iter().filter_map(|m| d.sends.iter().position(|x| x.0 == *m)).collect();
+        if order.windows(2).any(|w| w[0] >= w[1]) {
+            ex.fail("C19:fifo", format!("actor {a} handled {handled:?} against acceptance order"));
+        }
+        let direct: Vec<u32> = d.sends.iter().filter(|x| x.1 == Some(*a) && x.2).map(|x| x.0).collect();
+        let hd: Vec<u32> = handled.iter().copied().filter(|m| direct.contains(m)).collect();
+        if direct.len() < hd.len() || direct[..hd.len()] != hd[..] {
+            ex.fail("C19:fifo-prefix", format!("actor {a}: handled {hd:?} is not a prefix of accepted {direct:?}"));
+        }
+    }
+    // 5. calls: a reply needs a handler; once the target is gone the call must be over
+    let call_ids: Vec<u32> = d.calls.keys().copied().collect();
+    let mut grace_done = false;
+    for c in call_ids {
+        let slot = d.calls.get_mut(&c).unwrap();
+        if slot.result.is_none() {
+            if let Poll::Ready(r) = poll_once(slot.fut.as_mut().unwrap().as_mut()) {
+                slot.result = Some(show_call(&r));
+                slot.fut = None;
+            }
+        }
+        let handled_by = seen_global.get(&c).copied();
+        match slot.result.as_deref() {
+            Some(r) if r.starts_with("reply") || r == "noreply" => {
+                if handled_by.is_none() {
+                    ex.fail("C19:reply-without-handler", format!("call {c} -> {r} but no handler ran"));
+                }
+            }
+            Some("full") | Some("closed") => {
+                if handled_by.is_some() {
+                    ex.fail("C19:rejected-call-handled", format!("call {c} rejected but handled"));
+                }
+            }
+            Some(_) => {}
+            None => {
+                // still pending: every actor that could hold it has exited (all reachable actors were stopped)
+                let target_gone = match slot.target {
+                    Some(t) => exited.contains(&t),
+                    None => true,
+                };
+                if target_gone {
+                    if !grace_done {
+                        thread::sleep(Duration::from_millis(20));
+                        grace_done = true;
+                    }
+                    if let Poll::Pending = poll_once(slot.fut.as_mut().unwrap().as_mut()) {
+                        ex.tag("f14-stranded-call");
+                        ex.fail(
+                            "F14:call-stranded-at-exit",
+                            format!(
+                                "call {c} to actor {:?} still pending after the actor exited (handled by {:?}): its envelope was queued when the receiver was dropped",
+                                slot.target, handled_by
+                            ),
+                        );
+                    }
+                }
+            }
+        }
+    }
+    // 6. names: observed lifetimes [pre_start ok .. post_stop] of actors sharing a name never overlap
+    let mut by_name: BTreeMap<String, Vec<(u32, u64, u64)>> = BTreeMap::new();
+    for a in &ids {
+        let s = &d.actors[a];
+        let Some(n) = &s.name else { continue };
+        let l = d.log.of_seq(*a);
+        let start = l.iter().find(|e| e.0 == Obs::Hook(0, true)).map(|e| e.1);
+        let end = l.iter().find(|e| matches!(e.0, Obs::Hook(3, _))).map(|e| e.1).unwrap_or(u64::MAX);
+        if let Some(st) = start {
+            by_name.entry(n.clone()).or_default().push((*a, st, end));
+        }
+    }
+    for (n, ivs) in &by_name {
+        for i in 0..ivs.len() {
+            for j in i + 1..ivs.len() {
+                let (a, b) = (ivs[i], ivs[j]);
+                if !(a.2 < b.1 || b.2 < a.1) {
+                    ex.fail("C19:name-shared", format!("name {n}: actors {} and {} alive at the same time", a.0, b.0));
+                }
+            }
+        }
+    }
+    // after everything exited no name we used may still resolve
+    let names: BTreeSet<String> = d.actors.values().filter_map(|s| s.name.clone()).collect();
+    let unreachable_named = d.actors.values().any(|s| s.name.is_some() && !s.started && s.hooks[0]);
+    if !unreachable_named {
+        for n in names {
+            let owners_all_exited = d.actors.iter().all(|(a, s)| s.name.as_ref() != Some(&n) || exited.contains(a) || !s.hooks[0] || !s.started);
+            if owners_all_exited && d.cluster.as_ref().unwrap().lookup::<TestActor, _>(n.clone()).is_some() {
+                ex.fail("C19:name-not-released", format!("name {n} still registered after its actors exited"));
+            }
+        }
+    }
+    // 7. shut the cluster down
+    d.z.stop();
+    if let Some(r) = d.release.take() {
+        r.send(()).ok();
+    }
+    d.groups.clear();
+    d.calls.clear();
+    d.actors.clear();
+    if let Some(c) = d.cluster.take() {
+        if block_on_timeout(c.join(), LONG).is_none() {
+            ex.fail("C19:harness-join", "cluster.join() did not finish within 10 s");
+        }
+    }
+}
+
+fn exec_det(case: &Case) -> Exec {
+    let mut ex = Exec::new();
+    let mut d = Det::new();
+    for line in &case.lines {
+        let w: Vec<&str> = line.split_whitespace().collect();
+        let out = if w.first() == Some(&"hist") { judge_hist(&w[1..]) } else { d.op(&w) };
+        if let Some(t) = w.first() {
+            ex.tag(format!("op:{t}"));
+        }
+        match out.as_str() {
+            "full" => ex.tag("res:full"),
+            "closed" => ex.tag("res:closed"),
+            "nametaken" => ex.tag("res:nametaken"),
+            "startfail" => ex.tag("res:startfail"),
+            "noreply" => ex.tag("res:noreply"),
+            _ => {}
+        }
+        ex.out.push(out);
+    }
+    finish_det(&mut d, &mut ex);
+    ex.nontrivial = case.lines.iter().any(|l| l == "run") && case.lines.len() >= 4;
+    ex
+}
+
+// ---------------------------------------------------------------------------------------------
+// conc cases (filled in below)
+
+struct ConcShared {}
+
+impl ConcShared {
+    async fn in_handler(&self, _actor: u32, _msg: u32) {}
+}
+
+fn judge_hist(_w: &[&str]) -> String {
+    "bad-op".into()
+}
+
+// ---------------------------------------------------------------------------------------------
+// generators
+
+fn kind_of(rng: &mut Rng, call: bool) -> char {
+    if call {
+        *rng.pick(&['r', 'r', 'r', 'r', 'i', 'q', 'd'])
+    } else {
+        *rng.pick(&['n', 'n', 'n', 'n', 'n', 'n', 'f', 's', 'x'])
+    }
+}
+
+fn gen_det(rng: &mut Rng, n_ops: usize) -> Vec<String> {
+    let mut l: Vec<String> = vec![];
+    let mut next_actor = 1u32;
+    let mut next_msg = 1u32;
+    let mut actors: Vec<u32> = vec![];
+    let mut sups: Vec<u32> = vec![];
+    let mut groups: Vec<(u32, bool, u64)> = vec![];
+    let mut calls: Vec<u32> = vec![];
+    let names = ["a", "b", "c"];
+    let mut sup_keys: BTreeSet<(u32, String, u64)> = BTreeSet::new();
+    let spawn = |rng: &mut Rng, l: &mut Vec<String>, next_actor: &mut u32, actors: &mut Vec<u32>, sups: &[u32], sup_keys: &mut BTreeSet<(u32, String, u64)>| {
+        let a = *next_actor;
+        *next_actor += 1;
+        let name = if rng.chance(1, 2) { rng.pick(&names).to_string() } else { "-".to_string() };
+        let cap = rng.range(1, 4);
+        let mut sup = "-".to_string();
+        if !sups.is_empty() && rng.chance(1, 2) {
+            let s = *rng.pick(sups);
+            if sup_keys.insert((s, name.clone(), cap)) {
+                sup = s.to_string();
+            }
+        }
+        let hooks = if rng.chance(1, 5) {
+            let i = rng.below(4) as usize;
+            (0..4).map(|j| if i == j { '-' } else { '+' }).collect::<String>()
+        } else if rng.chance(1, 12) {
+            (0..4).map(|_| if rng.chance(1, 2) { '-' } else { '+' }).collect::<String>()
+        } else {
+            "++++".to_string()
+        };
+        l.push(format!("spawn {a} {name} {cap} {sup} {hooks}"));
+        actors.push(a);
+        a
+    };
+    // opening: maybe a supervisor, a few actors
+    if rng.chance(1, 2) {
+        let s = next_actor;
+        next_actor += 1;
+        l.push(format!("spawnsup {s} {} 64", if rng.chance(1, 4) { "sup" } else { "-" }));
+        l.push("run".into());
+        l.push(format!("await {s}"));
+        sups.push(s);
+    }
+    for _ in 0..rng.range(1, 3) {
+        let a = spawn(rng, &mut l, &mut next_actor, &mut actors, &sups, &mut sup_keys);
+        if rng.chance(4, 5) {
+            l.push("run".into());
+            l.push(format!("await {a}"));
+        }
+    }
+    while l.len() < n_ops {
+        let a = *rng.pick(&actors);
+        match rng.below(100) {
+            0..=29 => {
+                l.push(format!("send {a} {next_msg} {}", kind_of(rng, false)));
+                next_msg += 1;
+            }
+            30..=41 => {
+                l.push(format!("call {a} {next_msg} {}", kind_of(rng, true)));
+                calls.push(next_msg);
+                next_msg += 1;
+            }
+            42..=47 => l.push(format!("stop {a}")),
+            48..=60 => l.push("run".into()),
+            61..=66 => {
+                if let Some(c) = calls.last() {
+                    let c = if rng.chance(1, 2) { *c } else { *rng.pick(&calls) };
+                    l.push(format!("poll {c}"));
+                }
+            }
+            67..=72 => {
+                let a = spawn(rng, &mut l, &mut next_actor, &mut actors, &sups, &mut sup_keys);
+                if rng.chance(3, 4) {
+                    l.push("run".into());
+                    l.push(format!("await {a}"));
+                } else if rng.chance(1, 3) {
+                    l.push(format!("dropfut {a}"));
+                }
+            }
+            73..=76 => l.push(format!("await {a}")),
+            77..=82 => l.push(format!("lookup {}", rng.pick(&names))),
+            83..=84 => l.push(format!("isclosed {a}")),
+            85..=88 => l.push(format!("exit {a}")),
+            89..=99 => {
+                if groups.is_empty() || rng.chance(1, 8) {
+                    let g = groups.len() as u32 + 1;
+                    let c = rng.chance(1, 3);
+                    l.push(format!("gnew {g} {}", if c { "c" } else { "m" }));
+                    groups.push((g, c, 0));
+                    for _ in 0..rng.range(1, 3) {
+                        l.push(format!("gjoin {g} {}", rng.pick(&actors)));
+                        groups.last_mut().unwrap().2 += 1;
+                    }
+                } else {
+                    let gi = rng.below(groups.len() as u64) as usize;
+                    let (g, c, joined) = groups[gi];
+                    match rng.below(10) {
+                        0..=5 => {
+                            if c {
+                                l.push(format!("gcall {g} {next_msg} {}", kind_of(rng, true)));
+                                calls.push(next_msg);
+                            } else {
+                                l.push(format!("gsend {g} {next_msg} {}", kind_of(rng, false)));
+                            }
+                            next_msg += 1;
+                        }
+                        6 => {
+                            l.push(format!("gjoin {g} {a}"));
+                            groups[gi].2 += 1;
+                        }
+                        7 => {
+                            if joined > 0 {
+                                l.push(format!("gleave {g} {}", rng.below(joined)));
+                            }
+                        }
+                        _ => l.push(format!("glen {g}")),
+                    }
+                }
+            }
+            _ => unreachable!(),
+        }
+    }
+    // closing: look at everything
+    l.push("run".into());
+    for c in &calls {
+        l.push(format!("poll {c}"));
+    }
+    for a in &actors {
+        l.push(format!("exit {a}"));
+    }
+    for n in names {
+        l.push(format!("lookup {n}"));
+    }
+    l
+}
+
+fn generate(tier: &str, rng: &mut Rng) -> Vec<Case> {
+    let thorough = tier == "thorough";
+    let mut cases = vec![];
+    let n_det = if thorough { 6000 } else { 700 };
+    for i in 0..n_det {
+        let n_ops = rng.range(6, if i % 5 == 0 { 60 } else { 30 }) as usize;
+        cases.push(Case { name: format!("det-{i}"), lines: gen_det(rng, n_ops) });
+    }
+    cases
+}
+
+fn exec(case: &Case) -> Exec {
+    exec_det(case)
 }
 
 fn main() {
-    let d = Dispatcher::builder().worker_threads(NonZeroUsize::new(1).unwrap()).build().unwrap();
-    let cluster = Cluster::from_dispatcher(d);
-    let (etx, erx) = mpsc::channel();
-    let (rtx, rrx) = mpsc::channel();
-    let (mb, handle) = block_on_timeout(
-        cluster.spawn(|| Gate, (etx, rrx)).with_capacity(NonZeroUsize::new(4).unwrap()).into_future(),
-        Duration::from_secs(2),
-    )
-    .unwrap()
-    .unwrap();
-    mb.send(Block).unwrap();
-    erx.recv().unwrap();
-    let mb2 = mb.clone();
-    let caller = thread::spawn(move || block_on_timeout(mb2.call::<Q, u32>(Q), Duration::from_secs(2)));
-    thread::sleep(Duration::from_millis(100));
-    println!("stop -> {}", mb.stop());
-    rtx.send(()).unwrap();
-    let exit = block_on_timeout(handle, Duration::from_secs(2));
-    println!("exit {:?}", exit.map(|e| e.map(|e| matches!(e, ActorExit::Stopped))));
-    let r = caller.join().unwrap();
-    match r {
-        None => println!("call HUNG (watchdog 2s) after actor exit"),
-        Some(Ok(v)) => println!("call ok {v}"),
-        Some(Err(CallError::NoReply)) => println!("call NoReply"),
-        Some(Err(e)) => println!("call err {e}"),
-    }
+    run_harness(
+        generate,
+        exec,
+        "a det case is non-trivial when it has at least 4 operations and at least one `run` (the actors really executed); a conc case when at least two threads sent to the same actor",
+    );
 }
